@@ -1,6 +1,6 @@
 package sim
 
-// LockTable is the simulated lock API (filled in by locks_impl.go).
+// LockTable is the simulated lock API mounted on an LFSServer.
 type LockTable struct {
 	impl lockImpl
 }
